@@ -2,7 +2,7 @@
 `register/quant.rs`: sample_all.
 (split out of GenRegs2.lean so that an equality that no longer holds blocks only the properties that rely on it)
 -/
-import Qvnt.Lemmas.GenQuant
+import Qvnt.Lemmas.GenQProb
 
 set_option linter.unusedSectionVars false
 
